@@ -9,6 +9,7 @@ observable and checked against generic invariants.
 """
 from .. import flowcheck
 from .. import floworacle as fo
+from .. import floworacle_r3 as f3
 
 LEAN_MODULES = ['Props.C04', 'Props.Agreement', 'Props.Translated_C04']
 TRUSTED = ['harness/flow_impl.py (yaml renderer, canonicaliser, virtual clock, scripted random.uniform)',
@@ -17,7 +18,7 @@ TRUSTED = ['harness/flow_impl.py (yaml renderer, canonicaliser, virtual clock, s
            'CPython, ruamel.yaml (modelled, not verified)']
 ASSUMPTIONS = ['formatting inside decorators is restricted to the simple {key} grammar of PypyrModel/Fmt.lean',
                'context keys are strings; dict keys never mix bool/int/float',
-               'log output, real time and BaseException other than Exception subclasses are outside the observables']
+               'log output (not the log LEVEL: that is a generated input), real time and BaseException other than Exception subclasses are outside the observables']
 
 
 def catalogue():
@@ -98,9 +99,10 @@ def run(env, res):
     res.rule = ('directed families (expectation from the property text) first, then seeded random pipelines '
                 '(1-3 pipelines, 1-4 groups, 0-4 steps per group, decorators with p~0.25 each, foreach items incl. '
                 'None/0/\'\'/False/[]/{}, 12% with a malformed group body or sequence item, 35% written in another '
-                'yaml layout: flow style, JSON, first step on line 1, other indentation); a case is '
+                'yaml layout: flow style, JSON, first step on line 1, other indentation, single-quoted / plain / block scalars, anchors + aliases, merge keys; every 4th case runs with the root logger at DEBUG, every 8th at INFO, every 8th at NOTIFY - the log level is an input); a case is '
                 'non-trivial when the model accepts it and it terminates; distinct by canonical program text')
-    directed = [('c04', fo.c04_family, env.n(200, 100000)), ('c04-in', fo.c04_in_family, env.n(87, 100000))]
+    directed = [('c04', fo.c04_family, env.n(200, 100000)), ('c04-in', fo.c04_in_family, env.n(87, 100000)),
+                ('c04-scalar-styles', f3.c04_styles_family, env.n(140, 100000))]
     flowcheck.run_streams(env, res, directed, env.n(500, 100000), weights={'fail': 5, 'set': 2},
                           random_monitor=flowcheck.monitor_all)
 
